@@ -367,3 +367,33 @@ func View(data []byte) (frame.Frame, error) {
 	copy(ps, data)
 	return viewBuilder.ParseFrame(ps[:len(data)], ps, 0)
 }
+
+// InjectSwitch parses data as a frame received by n over recv and runs only the
+// real switch handler. Frames the switch escalated to the router are returned
+// unhandled (the caller owns them and must release them).
+func (vn *Net) InjectSwitch(n *Node, recv *VLink, data []byte) (escalated []frame.Frame, err error) {
+	ps := n.Builder.GetPooledSlice(len(data) + peering.FrameOffset + peering.FrameOverhead)
+	if ps == nil {
+		return nil, errors.New("frame too big for any pooled slice")
+	}
+	copy(ps[peering.FrameOffset:], data)
+	f, err := n.Builder.ParseFrame(ps[peering.FrameOffset:peering.FrameOffset+len(data)], ps, peering.FrameOffset)
+	if err != nil {
+		return nil, err
+	}
+	if recv != nil {
+		f.SetRecvLink(recv)
+	}
+	err = n.Sw.VerifHandleFrame(f)
+	if err != nil && errors.Is(err, mgr.ErrWorkerPanic) {
+		vn.Panics = append(vn.Panics, fmt.Sprintf("%s switch: %v", n.Name, err))
+	}
+	for {
+		select {
+		case e := <-n.RouterIn:
+			escalated = append(escalated, e)
+		default:
+			return escalated, err
+		}
+	}
+}
